@@ -101,13 +101,13 @@ static sigjmp_buf g_bail;
 static volatile sig_atomic_t g_bailArmed = 0;
 static void onBail(int) { if (g_bailArmed) siglongjmp(g_bail, 1); _exit(73); }
 static size_t framesJson(char* out, size_t cap, int skip) {
-    static void* addr[64];
+    static void* addr[160];
     volatile int n = 0;
     struct sigaction sa, oldSegv, oldBus; memset(&sa, 0, sizeof sa);
     sa.sa_handler = onBail; sa.sa_flags = SA_NODEFER | SA_ONSTACK; sigemptyset(&sa.sa_mask);
     sigaction(SIGSEGV, &sa, &oldSegv); sigaction(SIGBUS, &sa, &oldBus);
     { sigset_t un; sigemptyset(&un); sigaddset(&un, SIGSEGV); sigaddset(&un, SIGBUS); sigprocmask(SIG_UNBLOCK, &un, nullptr); }
-    if (sigsetjmp(g_bail, 1) == 0) { g_bailArmed = 1; n = backtrace(addr, 64); }
+    if (sigsetjmp(g_bail, 1) == 0) { g_bailArmed = 1; n = backtrace(addr, 160); }
     else { n = 0; }
     g_bailArmed = 0;
     sigaction(SIGSEGV, &oldSegv, nullptr); sigaction(SIGBUS, &oldBus, nullptr);
@@ -140,11 +140,11 @@ static size_t newStderr(char* out, size_t cap, size_t maxRead) {
 }
 
 static void abortEvent(const char* why, const char* detail, int skip) {
-    static char buf[60000];
+    static char buf[90000];
     size_t n = (size_t)snprintf(buf, sizeof buf, "{\"e\":\"Abort\",\"why\":\"%s\",\"detail\":\"", why);
     n += escInto(buf + n, 300, detail, strlen(detail));
     n += (size_t)snprintf(buf + n, sizeof buf - n, "\",\"frames\":");
-    n += framesJson(buf + n, 24000, skip);
+    n += framesJson(buf + n, 60000, skip);
     n += (size_t)snprintf(buf + n, sizeof buf - n, ",\"report\":\"");
     n += newStderr(buf + n, sizeof buf - n - 16, 9000);
     buf[n++] = '"'; buf[n++] = '}'; buf[n++] = '\n';
@@ -225,6 +225,22 @@ static std::string unhex(const std::string& h) {
     auto v = [](char c) { return c <= '9' ? c - '0' : (c | 32) - 'a' + 10; };
     for (size_t i = 0; i + 1 < h.size(); i += 2) o += char(v(h[i]) * 16 + v(h[i + 1]));
     return o;
+}
+
+// lenient UTF-8 -> UTF-16 (any byte sequence gives some code units), built in one piece
+static XalanDOMString utf16(const std::string& u) {
+    std::vector<XalanDOMChar> r; r.reserve(u.size() + 1);
+    size_t i = 0;
+    while (i < u.size()) {
+        unsigned char c = (unsigned char)u[i]; unsigned cp; int len;
+        if (c < 0x80) { cp = c; len = 1; } else if ((c >> 5) == 6) { cp = c & 0x1F; len = 2; } else if ((c >> 4) == 14) { cp = c & 0x0F; len = 3; } else { cp = c & 0x07; len = 4; }
+        for (int k = 1; k < len && i + k < u.size(); ++k) cp = (cp << 6) | ((unsigned char)u[i + k] & 0x3F);
+        i += (size_t)len;
+        if (cp >= 0x10000) { cp -= 0x10000; r.push_back(XalanDOMChar(0xD800 + ((cp >> 10) & 0x3FF))); r.push_back(XalanDOMChar(0xDC00 + (cp & 0x3FF))); }
+        else r.push_back(XalanDOMChar(cp));
+    }
+    size_t n = 0; while (n < r.size() && r[n] != 0) ++n;      // the API takes NUL-terminated strings
+    return r.empty() ? XalanDOMString() : XalanDOMString(&r[0], XalanMemMgrs::getDefaultXercesMemMgr(), (XalanDOMString::size_type)n);
 }
 
 static const char* const PROBE_XML = "<doc><item n='2'>b</item><item n='1'>a</item></doc>";
@@ -430,7 +446,7 @@ struct Child {
             if (ps) call("T", "destroyParsedSource", "seed", true, false, [&] { return xt->destroyParsedSource(ps); }, T, false);
         } else if (scen == "param" || scen == "paramChar") {
             // the input is a top-level parameter expression: evaluated by the next transformation
-            const XalanDOMString name("p"), expr(fromUtf8(in));
+            const XalanDOMString name("p"), expr(utf16(in));
             if (scen == "param") call("T", "setStylesheetParam", cls, true, false, [&] { xt->setStylesheetParam(name, expr); return 0; }, T, false);
             else call("T", "setStylesheetParam", cls, true, false, [&] { xt->setStylesheetParam("p", in.c_str()); return 0; }, T, false);
             std::istringstream x(sx), s(g_inputs[g_paramXsl]); std::ostringstream os;
@@ -476,7 +492,7 @@ struct Child {
             aborted = false;
             call("C", "XalanClearStylesheetParams", "seed", true, false, [&] { XalanClearStylesheetParams(ch); return 0; }, C);
         } else if (scen == "evaluate" || scen == "selectNodeList" || scen == "selectSingleNode" || scen == "createXPath") {
-            const XalanDOMString expr(fromUtf8(in));
+            const XalanDOMString expr(utf16(in));
             XalanNode* ctx = edoc;
             if (scen == "evaluate") {
                 call("E", "evaluate", cls, true, true, [&] {
@@ -500,7 +516,7 @@ struct Child {
             }
         } else if (scen == "evalDoc" || scen == "evalDocXerces") {
             // the input is the DOCUMENT: parsed through the liaison an XPathEvaluator client uses, then the seed expression
-            const XalanDOMString expr(fromUtf8(g_seedExpr));
+            const XalanDOMString expr(utf16(g_seedExpr));
             xercesc::MemBufInputSource src((const XMLByte*)in.data(), in.size(), "input");
             if (scen == "evalDoc") {
                 XalanSourceTreeDOMSupport sup; XalanSourceTreeParserLiaison lia(sup); sup.setParserLiaison(&lia);
